@@ -11,7 +11,7 @@ META = {
                  "transcription of ast's String methods; every tree's source is parsed by the real parser, printed by the real String(), "
                  "parsed again, and the two real trees are compared by a TLC Trace spec",
     "level": "model_checking",
-    "level_text": "TLC explores every abstract tree of depth <= 3 (thorough; in the quick tier the second operand of a depth-3 node is one tree per operator/kind) (binary operators of Go's five precedence levels plus and/or/not/contains, "
+    "level_text": "TLC explores every abstract tree of depth <= 3 (thorough; in the quick tier the second operand of a depth-3 node is one of five representative trees) (binary operators of Go's five precedence levels plus and/or/not/contains, "
                   "unary - ! ^ * & <- + not, call, index, slice, selector, type assertion, conversions with parenthesised types, composite "
                   "and function literals, assignment/var/send/defer/go/show statements), checks that the reference Print and Parse are "
                   "inverse on all of them, and records for each tree what the transcribed String methods would do. Every tree's source is "
@@ -188,7 +188,7 @@ def skey(sig):
 
 
 def run(ctx, only=None):
-    extra = ctx.pick(1500, 60000)
+    extra = ctx.pick(600, 15000)
     cf = ctx.work / "cases.ndjson"
     if only is not None:            # replay: the stored case carries everything (tree, prediction, source)
         cases, pred, extra = list(only.values()), {}, 0
